@@ -52,6 +52,7 @@ type Violation struct {
 	Event   json.RawMessage `json:"event"`
 	History *History        `json:"history"`
 	HHist   json.RawMessage `json:"handle_history,omitempty"`
+	FCase   *frameCaseJSON  `json:"frame_case,omitempty"`
 	Profile string          `json:"profile"`
 	Context []string        `json:"context"` // the trace lines of that history up to the rejected one
 	Note    string          `json:"note"`
@@ -66,6 +67,7 @@ type SeqRun struct {
 	mu       sync.Mutex
 	hists    map[int]*History
 	hhists   map[int][]byte
+	fcases   map[int]frameCase
 	shards   []string
 	Events   int
 	Counts   map[string]int
@@ -268,6 +270,10 @@ func (r *SeqRun) validateShard(path string) {
 		v := Violation{Prop: r.P.Prop, Line: bad, Event: json.RawMessage(lines[bad-1]), History: r.hists[eh.Hid],
 			HHist: r.hhists[eh.Hid], Profile: r.P.Prop, Context: ctx}
 		v.hid = eh.Hid
+		if fc, ok := r.fcases[eh.Hid]; ok && r.P.Module == "TraceFrames.tla" {
+			v.FCase = fc.toJSON()
+			v.History, v.HHist = nil, nil
+		}
 		r.confirm(&v)
 		// cut the rest of that history and check the remainder of the shard
 		rest := append(append([]string(nil), lines[:bad-1]...), lines[end:]...)
@@ -280,7 +286,7 @@ func (r *SeqRun) validateShard(path string) {
 
 // confirm re-executes the history alone; only a reproduced rejection is a violation.
 func (r *SeqRun) confirm(v *Violation) {
-	if v.History == nil && v.HHist == nil {
+	if v.History == nil && v.HHist == nil && v.FCase == nil {
 		r.infra("rejected event without history: %s", truncate(string(v.Event), 500))
 		return
 	}
@@ -313,6 +319,20 @@ func truncate(s string, n int) string {
 func (r *SeqRun) replayAny(v *Violation) (bool, int, string) {
 	if v.History != nil {
 		return r.replayHistory(v.History)
+	}
+	if v.FCase != nil {
+		dir, _ := os.MkdirTemp(r.Scratch, "replay")
+		defer os.RemoveAll(dir)
+		path := filepath.Join(dir, "trace.ndjson")
+		tw, err := NewTraceWriter(path, r.P.KF)
+		if err != nil {
+			r.infra("replay: %v", err)
+			return true, 0, ""
+		}
+		tw.Emit(map[string]any{"ev": "reset", "hid": v.hid})
+		runFrameCase(v.FCase.toCase(), filepath.Join(dir, "fc"), v.hid, tw)
+		tw.Close()
+		return r.judgeReplay(path)
 	}
 	var hh hHist
 	if err := json.Unmarshal(v.HHist, &hh); err != nil {
